@@ -238,6 +238,16 @@ func faultOne(sc *faultScn, idx int) verdict {
 		conn, eff = 4*time.Second, 4*time.Second // a loss must surface long before this
 	}
 
+	if sc.Fault == "stall" && sc.Setting != "zero" && len(sc.Allowed) == 1 && sc.Allowed[0] == "ok" {
+		// the stall lies behind everything the operation needs: nothing is waited for, so the tight budgets above would only
+		// measure the machine's load (310 one-byte reads of a hello do not fit into 120 ms on a busy machine)
+		conn, eff = 3*time.Second, 3*time.Second
+
+		if sc.Setting == "opshort" || sc.Setting == "oplong" {
+			opOpts = append(opOpts, opoptions.WithTimeoutOps(eff))
+		}
+	}
+
 	c := sessCfg{connTimeout: conn, seg: faultSegs[sc.Seg], seed: int64(idx)}
 
 	var s *sess
@@ -435,7 +445,7 @@ func faultOne(sc *faultScn, idx int) verdict {
 				fail(&v, "C06:"+sc.Op+":"+sc.Fault+":later-op-panics", "operation %d after the loss panicked: %v", i+1, pan)
 			case nerr == nil:
 				fail(&v, "C06:"+sc.Op+":"+sc.Fault+":later-op-succeeds", "operation %d after the loss reported success", i+1)
-			case time.Since(t1) > time.Second:
+			case time.Since(t1) > 2500*time.Millisecond: // the operation's own timeout is 4 s
 				fail(&v, "C06:"+sc.Op+":"+sc.Fault+":later-op-slow", "operation %d after the loss needed %v to fail (%v)", i+1, time.Since(t1), nerr)
 			}
 		}
